@@ -252,6 +252,11 @@ func runC19(c *Ctx, idx int, o *Obs) {
 			}
 		}
 	}
+	if !p.tmpl.Seeded && len(other) == 0 { // (an option moved above, such as prune --random, may make the command draw numbers)
+		// a command that draws no random number is run without any option of the harness's own (so that "no option at
+		// all" is among the invocations compared)
+		seed = nil
+	}
 	if p.flag == "seed" {
 		// a command that draws no random number: the documented default of --seed (-1, the clock) changes nothing,
 		// and the harness does not add a seed of its own
